@@ -224,3 +224,87 @@ func (c *Ctx) ruleCoderSelect(rule string, floor int) {
 }
 
 var coderSelectExempt = map[string]string{}
+
+// R-UTF8-SLOW: every StringKind branch of the reflection codec and of the text
+// codec that moves a string between the wire/text form and the message
+// rejects invalid UTF-8 exactly under strs.EnforceUTF8(fd).
+func (c *Ctx) ruleUTF8Slow(rule string, floor int) {
+	R, P := c.R, c.P
+	R.Rule(rule, "in every function of the reflection codec (package proto) and of prototext that has a `case protoreflect.StringKind` clause handling field values, that clause contains a test `strs.EnforceUTF8(fd) && !utf8.Valid…(v)` (possibly with further conjuncts) whose branch returns a non-nil error", floor)
+	for _, pkg := range []string{"proto", "encoding/prototext"} {
+		for _, fi := range P.FuncsIn(pkg) {
+			if fi.Decl.Body == nil {
+				continue
+			}
+			if rs := fi.Obj.Type().(*types.Signature).Results(); rs.Len() == 1 && isIntType(rs.At(0).Type()) {
+				continue // size functions measure, they do not move the string
+			}
+			info := fi.Info()
+			k := 0
+			walkAll(fi.Decl.Body, func(n ast.Node) bool {
+				cl, ok := n.(*ast.CaseClause)
+				if !ok {
+					return true
+				}
+				isString := false
+				for _, e := range cl.List {
+					if kd, ok := kindOfExpr(info, e); ok && kd == "StringKind" {
+						isString = true
+					}
+				}
+				if !isString || len(cl.List) != 1 {
+					return true
+				}
+				// only clauses that produce or consume the string value
+				touches := false
+				for _, st := range cl.Body {
+					if containsCall(info, st, "reflect/protoreflect.ValueOfString", "reflect/protoreflect.Value.String", "encoding/protowire.AppendString", "internal/encoding/text.(*Encoder).WriteString") != nil {
+						touches = true
+					}
+				}
+				if !touches {
+					return true
+				}
+				k++
+				good := false
+				for _, st := range cl.Body {
+					walk(st, func(y ast.Node) bool {
+						is, ok := y.(*ast.IfStmt)
+						if !ok {
+							return true
+						}
+						var atoms []atomVal
+						impliedAtoms(is.Cond, true, &atoms)
+						enf, inval := false, false
+						for _, a := range atoms {
+							if call, ok := unparen(a.E).(*ast.CallExpr); ok {
+								ck := calleeKey(info, call)
+								if strings.HasSuffix(ck, "internal/strs.EnforceUTF8") && a.Val {
+									enf = true
+								}
+								if strings.HasPrefix(ck, "unicode/utf8.Valid") && !a.Val {
+									inval = true
+								}
+							}
+						}
+						if enf && inval {
+							ret := false
+							walk(is.Body, func(z ast.Node) bool {
+								if rs, ok := z.(*ast.ReturnStmt); ok && len(rs.Results) > 0 && !isNilIdent(info, rs.Results[len(rs.Results)-1]) {
+									ret = true
+								}
+								return true
+							})
+							if ret {
+								good = true
+							}
+						}
+						return true
+					})
+				}
+				R.Check(good, rule, fi.Key+" StringKind clause #"+itoa(k), P.Pos(cl), "rejects invalid UTF-8 under strs.EnforceUTF8(fd)", "a StringKind branch moves a string without the `strs.EnforceUTF8(fd) && !utf8.Valid(v)` rejection: invalid UTF-8 in a proto3/editions string field would be accepted or emitted")
+				return true
+			})
+		}
+	}
+}
